@@ -481,10 +481,15 @@ func c08bloomCase(c *vf.Ctx, i int) {
 			c.Inc("bloom/block-without-transactions")
 		}
 		if blk, err := bchutil.NewBlockFromBytes(raw); err == nil {
-			m.run("bloom.NewMerkleBlock", n+9+len(raw), func() string { return d() + fmt.Sprintf(" NewMerkleBlock(%x)", raw) }, func() { _, _ = bloom.NewMerkleBlock(blk, f) })
-			m.run("merkleblock.NewMerkleBlockWithFilter", n+9+len(raw), func() string { return d() + fmt.Sprintf(" NewMerkleBlockWithFilter(%x)", raw) }, func() {
+			// (a panic inside a locked filter method leaves the mutex held: the object is abandoned then)
+			if !m.run("bloom.NewMerkleBlock", n+9+len(raw), func() string { return d() + fmt.Sprintf(" NewMerkleBlock(%x)", raw) }, func() { _, _ = bloom.NewMerkleBlock(blk, f) }) {
+				return
+			}
+			if !m.run("merkleblock.NewMerkleBlockWithFilter", n+9+len(raw), func() string { return d() + fmt.Sprintf(" NewMerkleBlockWithFilter(%x)", raw) }, func() {
 				_, _ = merkleblock.NewMerkleBlockWithFilter(blk, f)
-			})
+			}) {
+				return
+			}
 			m.run("merkleblock.NewMerkleBlockWithTxnSet", n+9+len(raw), func() string { return d() + fmt.Sprintf(" NewMerkleBlockWithTxnSet(%x)", raw) }, func() {
 				_, _ = merkleblock.NewMerkleBlockWithTxnSet(blk, []*chainhash.Hash{&h})
 			})
